@@ -187,6 +187,8 @@ func (m *iterModel) keep(f flatField) bool {
 		omit = m.DefaultOmit
 	}
 	switch omit {
+	case "always":
+		return false
 	case "never":
 		return true
 	case "empty":
